@@ -30,6 +30,7 @@ type World struct {
 	Contracts    []common.Address
 	Fresh        []common.Address // do not exist in the pre-state
 	Precompiles  []common.Address
+	NoBlockHash  bool // programs must not read BLOCKHASH (twin chains whose block hashes differ by construction)
 	Coinbase     common.Address
 	CoinbaseKind string
 	Accounts     map[common.Address]*Account // the pre-state
@@ -100,6 +101,8 @@ type WorldOpts struct {
 	RichEOAs bool
 	// NoCollisions: do not pre-place accounts at future CREATE addresses.
 	NoCollisions bool
+	// NoBlockHash: generated programs do not read BLOCKHASH.
+	NoBlockHash bool
 }
 
 // NewWorld draws a pre-state.
@@ -113,7 +116,7 @@ func NewWorld(r *rand.Rand, o WorldOpts) *World {
 	if o.ChainID == nil {
 		o.ChainID = big.NewInt(242)
 	}
-	w := &World{ChainID: o.ChainID, Galaxias: o.Galaxias, Accounts: map[common.Address]*Account{}}
+	w := &World{ChainID: o.ChainID, Galaxias: o.Galaxias, NoBlockHash: o.NoBlockHash, Accounts: map[common.Address]*Account{}}
 	for i := 0; i < o.NEOA; i++ {
 		k := Key(i)
 		w.Keys = append(w.Keys, k)
@@ -355,6 +358,9 @@ func Program(r *rand.Rand, w *World, self int) []byte {
 			} else { // record something of the execution environment in storage (block context, gas left)
 				envOps := []byte{byte(kvm.TIMESTAMP), byte(kvm.NUMBER), opCOINBASE, byte(kvm.GASLIMIT), byte(kvm.GASPRICE), opORIGIN, opCALLER, opGAS, byte(kvm.CHAINID), byte(kvm.BLOCKHASH)}
 				op := envOps[r.Intn(len(envOps))]
+				if op == byte(kvm.BLOCKHASH) && w.NoBlockHash {
+					op = byte(kvm.NUMBER)
+				}
 				if op == byte(kvm.BLOCKHASH) {
 					a.PushU(1).Op(byte(kvm.NUMBER), byte(kvm.SUB))
 				}
